@@ -46,3 +46,10 @@ PROPS['C17'] = A(level='model_checking', harnesses=HOLD_H, budget=A(quick=150, t
     bounds=A(quick='two slots each of optional<int|Tracked|MoveOnly|CopyOnly>, expected<Err,Tracked|int>, variant<Tracked,TrackedB,int>, manual_box<Tracked>; every constructor/assignment/emplace/unwrap/map/apply in every (destination,source) state combination, histories of any length (fixpoint); tuple shapes vs std::tuple',
              thorough='same (the spaces are closed completely already)'),
     assumptions=TRUST)
+
+PROPS['C16'] = A(level='model_checking',
+    harnesses=SEQ_H + HM_H + HOLD_H + [A(src='harness/c16_owners.cpp', san='asan')],
+    budget=A(quick=170, thorough=1500),
+    bounds=A(quick='lifetime registry + tracking allocator as a second oracle over the C13/C14/C17 explorations (same bounds), plus unique_ptr / unique_memory / construct+destruct helpers to fixpoint; after EVERY transition all owners are destroyed and the registries must be empty',
+             thorough='same harnesses at their thorough bounds'),
+    assumptions=TRUST)
